@@ -31,6 +31,8 @@ def run(prog, rep, tier, snap):
     rep.call(fillers.r09_5, prog, rep)
     rep.rule("R09.7", "an offset day-of-year is bounded above before the remainder-table lookup", 1)
     rep.call(fillers.r09_7, prog, rep)
+    rep.rule("R01.7", "range tests against 0 keep the sign (an out-of-range BYMONTHDAY is skipped, not wrapped; shared with C01)", 2)
+    rep.call(fillers.r01_7, prog, rep)
     from ..rules import encodings
     rep.rule("R09.8", "only a positive INTERVAL reaches the fillers' unsigned step", 2)
     rep.call(encodings.r09_8, prog, rep)
